@@ -444,6 +444,10 @@ package val
 // compare: NULL ordering and, per fixed-width encoding, the order of the decoded values.
 //@ func compare
 //@   property C15
+// event marker for the tuple comparator below: how many field comparisons were made, whether all were equal, the last result
+//@   ghost_set verif_ghost.cN = verif_ghost.cN + 1
+//@   ghost_set verif_ghost.cAllZero = verif_ghost.cAllZero && result0 == 0
+//@   ghost_set verif_ghost.cLast = result0
 //@   requires left != nil && right != nil && (typ.Enc == Int8Enc || typ.Enc == Uint8Enc || typ.Enc == YearEnc) ==> len(left) == 1 && len(right) == 1
 //@   requires left != nil && right != nil && (typ.Enc == Int16Enc || typ.Enc == Uint16Enc || typ.Enc == EnumEnc) ==> len(left) == 2 && len(right) == 2
 //@   requires left != nil && right != nil && (typ.Enc == Int32Enc || typ.Enc == Uint32Enc || typ.Enc == Float32Enc) ==> len(left) == 4 && len(right) == 4
@@ -630,3 +634,66 @@ package val
 //@   ensures  len(key) == 18 && key[16] == 1 && key[17] == 0
 //@   ensures  verif_le64(key[0:8]) == verif_ghost.kLo && verif_le64(key[8:16]) == verif_ghost.kHi
 //@   also_modifies verif_ghost.kLo, verif_ghost.kHi
+
+// ---- DATETIME sorts like the instants it stands for (C15)
+
+//@ func verif_teq
+//@   pure
+//@   opaque
+//@ func verif_tlt
+//@   pure
+//@   opaque
+//@ extern (time.Time).Equal as verif_x_time_Equal
+//@   modifies nothing
+//@   ensures b == verif_teq(t, u)
+//@ extern (time.Time).Before as verif_x_time_Before
+//@   modifies nothing
+//@   ensures b == verif_tlt(t, u)
+//@ func compareDatetime
+//@   property C15
+//@   modifies nothing
+//@   ensures result == 0 || result == -1 || result == 1
+//@   ensures (result == 0) == verif_teq(l, r)
+//@   ensures (result == -1) == (!verif_teq(l, r) && verif_tlt(l, r))
+
+// ---- a builder is empty after every build, whichever build it was (C15: tuples are the same however they are built)
+
+//@ func (*TupleBuilder).Recycle
+//@   property C15
+//@   requires tb != nil && tb.Desc != nil && len(tb.fields) >= len(tb.Desc.Types)
+//@   ensures  forall k in 0..len(tb.Desc.Types): tb.fields[k] == nil
+//@   ensures  tb.pos == 0 && tb.inlineSize == 0 && tb.outOfBandSize == 0
+//@   loop 1
+//@     invariant 0 <= i && i <= len(tb.Desc.Types) && len(tb.fields) >= len(tb.Desc.Types)
+//@     invariant forall k in 0..i: tb.fields[k] == nil
+//@ func (*TupleBuilder).BuildPrefix
+//@   property C15
+//@   requires tb != nil && tb.Desc != nil && len(tb.fields) >= len(tb.Desc.Types) && 0 <= k && k <= len(tb.Desc.Types)
+//@   ensures  forall j in 0..len(tb.Desc.Types): tb.fields[j] == nil
+//@   ensures  tb.pos == 0 && tb.inlineSize == 0 && tb.outOfBandSize == 0
+
+// ---- tuples compare field by field, every field, NULL first (C15)
+
+
+// DefaultTupleComparator.Compare: fields are compared in order, each with its own type, none skipped; the first
+// non-zero comparison is the answer, and the answer is 0 only after EVERY field of the descriptor compared equal
+// (a field a tuple does not store is NULL and is still compared). Field lengths are the tuple layer's business.
+//@ func (*DefaultTupleComparator).Compare
+//@   property C15
+//@   assume_requires compare GetField Count
+//@   requires d != nil && desc != nil && len(desc.fast) <= len(desc.Types) && verif_ghost.cN == 0 && verif_ghost.cAllZero
+//@   at call compare#1: assert i == verif_ghost.cN && verif_ghost.cAllZero && arg1:Type == desc.Types[i]
+//@   at call compare#2: assert j == verif_ghost.cN && verif_ghost.cAllZero && arg1:Type == desc.Types[j]
+//@   ensures  err == nil && cmp == 0 ==> verif_ghost.cN == len(desc.Types) && verif_ghost.cAllZero
+//@   ensures  err == nil && cmp != 0 ==> cmp == verif_ghost.cLast && verif_ghost.cN > 0
+//@   also_modifies verif_ghost.cN, verif_ghost.cAllZero, verif_ghost.cLast
+//@   loop 1
+//@     invariant 0 <= i && i <= off && off == len(desc.fast) && off <= len(desc.Types)
+//@     invariant verif_ghost.cN == i
+//@     invariant verif_ghost.cAllZero
+//@     invariant cmp == 0 && err == nil
+//@   loop 2
+//@     invariant 0 <= rangeidx && rangeidx <= len(desc.Types) - off && off == len(desc.fast) && off <= len(desc.Types)
+//@     invariant verif_ghost.cN == off + rangeidx
+//@     invariant verif_ghost.cAllZero
+//@     invariant cmp == 0 && err == nil
